@@ -353,6 +353,29 @@ def r6(ctx):
                 ctx.fail(rule, key, bad, cs.loc(), detail)
             else:
                 ctx.ok(rule, key, detail)
+    # the renderer itself: under the flag both halves of `Type::Variant` get the name the generator gives the enum and its
+    # variant (a half that is printed as stored names an item the generated file does not declare)
+    fmts = [b for b in P.lib_bodies("asn1rs_model") if "as_rust_const_literal" in b.path and b.name == "fmt" and b.def_kind == "AssocFn"]
+    if len(fmts) != 1:
+        ctx.fail(rule, "anchor-lost:as_rust_const_literal::fmt", "matched %d bodies" % len(fmts))
+    else:
+        fb = fmts[0]
+        Of = X.Origins(fb, P)
+        arms = [a for a in R.match_tables(P, fb, Of) if a.path[-1][1] == "EnumeratedVariant"]
+        calls = set()
+        for a in arms:
+            calls |= {c.split("::")[-1] for c in R.arm_effects(P, fb, a, Of)["calls"]}
+        want = {"rust_struct_or_enum_name": "type", "rust_variant_name": "variant"}
+        d = {"function": fb.path, "calls_in_the_EnumeratedVariant_arm": sorted(calls)}
+        miss = [w for w in want if w not in calls]
+        if not arms:
+            ctx.fail(rule, "as_rust_const_literal#anchor-lost:EnumeratedVariant", "no arm for LiteralValue::EnumeratedVariant", "%s:%d" % (fb.file, fb.line), d)
+        elif miss:
+            ctx.fail(rule, "as_rust_const_literal#EnumeratedVariant#" + want[miss[0]], "the %s half of an ENUMERATED default is never passed "
+                     "through %s: `Traffic-Light::Amber` is printed for the generated `enum TrafficLight`" % (want[miss[0]], miss[0]),
+                     "%s:%d" % (fb.file, fb.line), d)
+        else:
+            ctx.ok(rule, "as_rust_const_literal#EnumeratedVariant", d)
     ctx.floor(rule, n["generate/walker.rs"], "C09.R6.walker_sites")
     ctx.floor(rule, n["generate/rust.rs"], "C09.R6.generator_sites")
 
